@@ -22,6 +22,10 @@ CORPUS = [  # minimised past failures (run first)
          ext=[0, 1, 2, 3, 4], D=3, name="corpus:pentagon-4ulp-deficit"),
     dict(edges=[(0, 1), (0, 1)], weights=[1.0, 1.0], massive=[False] * 2, ext=[0, 1], D=3, name="corpus:bubble-exact-half"),
     dict(edges=[(0, 1), (1, 2), (2, 3), (3, 0)], weights=[1.0] * 4, massive=[False] * 4, ext=[0, 1, 2, 3], D=3, name="corpus:box-exact-quarters"),
+    # probabilities that underflow to exactly +0.0 (u = 0 must still select the lowest edge of the subgraph)
+    dict(edges=[(0, 1), (1, 2), (2, 0)], weights=[1e-305, 1e20, 1e20], massive=[True] * 3, ext=[0, 1, 2], D=3, name="corpus:zero-probability-first-edge"),
+    dict(edges=[(0, 1), (1, 2), (2, 3), (3, 0)], weights=[1e15, 1e-150, 1e-150, 1e15], massive=[True] * 4, ext=[0, 1, 2, 3], D=3,
+         name="corpus:zero-probability-middle-edges"),
 ]
 
 
@@ -120,6 +124,8 @@ def run(ctx):
             ctx.violation(f"sample_edge panicked for u={u!r} in [0,1): {a.get('msg', '')[:100]}", small, expected="an edge", observed=a)
             continue
         # exact oracle: first edge in index order whose exact running sum reaches u
+        if any(not math.isfinite(b2f(en[2])) or not math.isfinite(b2f(en[3])) for en in r["table"]["entries"]):
+            ctx.count("table_with_non_finite_J(exact oracle not applicable)"); continue
         ex = exact_cums(r["table"]["entries"], n, g)
         uu = Fraction(u)
         if all(uu == ck or abs(uu - ck) > Fraction(1, 10 ** 9) for _, ck in ex):
@@ -146,6 +152,7 @@ def run(ctx):
                     special=("single_edge", "single_edge", "vacuum", "vacuum"))
     S.run(ss)
     SC.corr_perm(ctx, ss)
+    SC.generic_scalar_guard(ctx, ss[:: 2], k=8)
     for s in ss:
         a, c = s["impl"], s["case"]
         ctx.case(["api", s["req"]["x"], c["edges"], c["weights"], c["D"]], nontrivial=len(c["edges"]) >= 2 or True)
